@@ -159,14 +159,23 @@ def _extend(node, v, depth):
     return out
 
 
+def renamed(schema, suffix='_o'):
+    """The same schema with every top-level field / constant renamed: the message
+    type of *another* topic, so that a path valid for one message is not valid
+    for the other."""
+    return ('msg', {k + suffix: v for k, v in schema[1].items()}, {k + suffix: v for k, v in schema[2].items()})
+
+
 def atoms_for(schema, aliases=('A',), depth=3):
     """{sort: [atoms]} for the Grammar: every valid chain of the schema whose
     descriptor is a primitive or an array of primitives, rooted at the current
     message and at each alias."""
     out = {'N': [], 'B': [], 'S': [], 'A': [], 'AB': [], 'AS': []}
-    roots = [('this',)] + [('var', a) for a in aliases]
-    for root in roots:
-        for node, t in paths(schema, root, depth):
+    if not isinstance(aliases, dict):
+        aliases = {a: schema for a in aliases}
+    roots = [(('this',), schema)] + [(('var', a), sc) for a, sc in aliases.items()]
+    for root, sc in roots:
+        for node, t in paths(sc, root, depth):
             if t == 'N':
                 out['N'].append(node)
             elif t == 'B':
